@@ -7,10 +7,15 @@ import (
 	"os"
 	"sort"
 	"strings"
+	"sync"
 	"time"
+
+	dcp "github.com/Trendyol/go-dcp"
+	"github.com/Trendyol/go-dcp/models"
 
 	"verif/harness/cbsim"
 	"verif/harness/drv"
+	"verif/harness/hx"
 )
 
 // C01 — the durable checkpoint never runs ahead of what the consumer settled; a restart from any
@@ -417,16 +422,31 @@ func init() {
 				}
 				out = append(out, sc)
 			}
+			// the simple listener API (NewDcp(cfg, listener)): a listener that panics on one document. The process may die of it
+			// (the event stays unsettled, a restart delivers it again); it may not go on with the event counted as settled
+			for j := 0; j < 3; j++ {
+				out = append(out, drv.Scenario{Kind: "listener-panic", Seed: seed, Params: mustJSON(&SessSpec{NumVB: 1 + j, AckSeed: int64(j)}), TimeoutS: 60, Solo: true})
+			}
 			xr := rand.New(rand.NewSource(seed*53 + 3))
 			for j := 0; j < n/25; j++ {
 				out = append(out, drv.Scenario{Kind: "regroup", Seed: seed, Params: mustJSON(c01Regroup(xr, j)), TimeoutS: 120, Solo: true})
 			}
 			return out
 		},
+		OnDeath: func(sc drv.Scenario, out drv.ChildOutcome) drv.Result {
+			if sc.Kind == "listener-panic" && strings.Contains(out.Stderr, "listener cannot handle this document") {
+				return drv.Result{Verdict: drv.Held, Checks: 1, Nontrivial: true, TraceHash: drv.Hash("listener-panic", "died"), Events: map[string]int{"process_deaths": 1},
+					Sample: map[string]any{"kind": "listener-panic", "outcome": "the listener's panic ended the process; nothing beyond the event was stored (notes: " + strings.Join(out.Notes, "; ") + ")"}}
+			}
+			return drv.Result{Verdict: drv.Inconclusive, Detail: "child died: " + drv.PanicLine(out.Stderr), Foreign: []string{"process death: " + drv.PanicLine(out.Stderr)}}
+		},
 		Run: func(sc drv.Scenario) drv.Result {
 			var sp SessSpec
 			if err := json.Unmarshal(sc.Params, &sp); err != nil {
 				return drv.Result{Verdict: drv.Inconclusive, Detail: err.Error()}
+			}
+			if sc.Kind == "listener-panic" {
+				return c01ListenerPanic(&sp)
 			}
 			tr := RunSession(&sp)
 			if tr.StartErr != "" {
@@ -540,8 +560,78 @@ func init() {
 			}
 			return r
 		},
-		OnDeath: func(sc drv.Scenario, out drv.ChildOutcome) drv.Result {
-			return drv.Result{Verdict: drv.Inconclusive, Detail: "child died: " + drv.PanicLine(out.Stderr), Foreign: []string{"process death: " + drv.PanicLine(out.Stderr)}}
-		},
 	})
+}
+
+// c01ListenerPanic: NewDcp(cfg, listener) on the simulated node; the listener acknowledges every document except one, on
+// which it panics. Automatic checkpoints every 5 ms. Whatever the library does with the panic, no checkpoint may name the
+// panicking event (or anything behind it on that vBucket): it was never acknowledged.
+func c01ListenerPanic(sp *SessSpec) drv.Result {
+	hx.QuietLogger()
+	env, err := hx.NewEnv(hx.EnvOpts{NumVB: sp.NumVB})
+	if err != nil {
+		return drv.Result{Verdict: drv.Inconclusive, Detail: err.Error()}
+	}
+	defer env.Close()
+	badSeq := uint64(6) // the last document of vBucket 0: nothing acknowledged later can settle it (settling is cumulative)
+	for vb := 0; vb < sp.NumVB; vb++ {
+		var its []cbsim.Item
+		for k := 0; k < 6; k++ {
+			its = append(its, cbsim.Item{Kind: cbsim.KMutation, Key: []byte(fmt.Sprintf("lp-%d-%d", vb, k)), Value: []byte("{}")})
+		}
+		env.Sim.Append(uint16(vb), its)
+	}
+	cfg := env.BaseConfig()
+	cfg.Checkpoint.Type = "auto"
+	cfg.Checkpoint.Interval = 5 * time.Millisecond
+	var mu sync.Mutex
+	acked := map[[2]uint64]bool{}
+	d, err := dcp.NewDcp(cfg, func(ctx *models.ListenerContext) {
+		switch e := ctx.Event.(type) {
+		case models.DcpMutation:
+			if e.VbID == 0 && e.SeqNo == badSeq {
+				drv.NoteFlush("listener panics on vb 0 seq %d", badSeq)
+				panic("listener cannot handle this document")
+			}
+			mu.Lock()
+			acked[[2]uint64{uint64(e.VbID), e.SeqNo}] = true
+			mu.Unlock()
+			ctx.Ack()
+		default:
+			ctx.Ack()
+		}
+	})
+	if err != nil {
+		return drv.Result{Verdict: drv.Inconclusive, Detail: "NewDcp: " + err.Error()}
+	}
+	done := make(chan struct{})
+	go func() { defer close(done); d.Start() }()
+	time.Sleep(600 * time.Millisecond)
+	// still alive: look at what reached the store
+	var fs []string
+	for _, r := range env.Log.Snapshot() {
+		if r.K != "sim.xattrwrite" {
+			continue
+		}
+		mu.Lock()
+		wasAcked := false
+		if vb, t, ok := decodeXattrWrite(r.S); ok {
+			wasAcked = acked[[2]uint64{uint64(vb), t.seq}]
+		}
+		mu.Unlock()
+		if vb, t, ok := decodeXattrWrite(r.S); ok && vb == 0 && t.seq >= badSeq && !wasAcked {
+			fs = append(fs, fmt.Sprintf("checkpoint write for vb 0 names seqno %d (snapshot [%d,%d]); the listener panicked on seqno %d and never acknowledged it", t.seq, t.ss, t.se, badSeq))
+		}
+	}
+	d.Close()
+	select {
+	case <-done:
+	case <-time.After(20 * time.Second):
+	}
+	res := drv.Result{Verdict: drv.Held, Checks: 1, Nontrivial: true, TraceHash: drv.Hash("listener-panic", fmt.Sprint(sp.NumVB)), Events: map[string]int{"sim.xattrwrite": env.Log.Count("sim.xattrwrite")},
+		Sample: map[string]any{"kind": "listener-panic", "outcome": "the client went on", "checkpoint_writes": env.Log.Count("sim.xattrwrite")}}
+	if len(fs) > 0 {
+		res.Verdict, res.Clause, res.FindingKey, res.Detail = drv.Violated, "never-ahead", "C01/never-ahead/listener-panic", strings.Join(fs[:1], " | ")
+	}
+	return res
 }
